@@ -634,7 +634,7 @@ func main() {
 		f, _ := eval(k)
 		c.ReplayResult(f)
 	}
-	maxNodes := 5
+	maxNodes := 6
 	if c.Thorough() {
 		maxNodes = 7
 	}
